@@ -497,8 +497,8 @@ func verifC03(K int) {
 			}
 			continue
 		}
-		// a block from a peer carrying coinbase + one of p1, p2, p3
-		i := vrt.Choice("block-member", 3)
+		// a block from a peer carrying coinbase + one of p1, p2, p3, p4
+		i := vrt.Choice("block-member", 4)
 		if confirmed[i] {
 			continue
 		}
@@ -581,6 +581,16 @@ func verifC03(K int) {
 				validOnConfirmed = false // k1 is no longer at the never-written version
 			}
 		}
+		// an output the block's member spends must have been created on the chain, not only in this node's pool
+		spendsPendingOnly := false
+		for _, d := range fam[i].deps {
+			if !confirmed[d] {
+				validOnConfirmed = false
+				if inPool[d] {
+					spendsPendingOnly = true
+				}
+			}
+		}
 		unseenReaderVsPendingWriter := false
 		for j := range fam {
 			if inPool[j] && j != i && fam[j].wkey != "" && fam[i].wkey == "" && !inPool[i] && len(fam[i].keyIn) > 0 && fam[j].keyIn[0] == fam[i].keyIn[0] {
@@ -606,8 +616,9 @@ func verifC03(K int) {
 			}
 		}
 		vrt.Cover("block-played", err == nil)
+		vrt.Known("block-spends-pending-only-output", spendsPendingOnly)
 		vrt.Assert((err == nil) == validOnConfirmed, "block-admitted-iff-its-transaction-is-current-on-the-confirmed-state")
-		if err != nil {
+		if err != nil || !validOnConfirmed {
 			return // the state after a failed play is C05's subject
 		}
 		tip = b
@@ -665,6 +676,42 @@ func verifC03(K int) {
 			}
 		}
 	}
+}
+
+// VerifC03ReaderUndone: the pool holds a reader of a key version (spending output A) and, admitted after
+// it, the writer that supersedes that version (spending output B).  A peer's block carries the writer and
+// a transaction spending output A: the reader has to go, the writer is confirmed.  Afterwards the node
+// must equal one that played the chain.
+func VerifC03ReaderUndone() {
+	e := vkit.NewEnv("c03r", vkit.Genesis("0", "9", "5"), nil)
+	s := e.NewState("live")
+	vrt.Assert(s.Play(e.Root.Blockid) == nil, "genesis-plays")
+	root := e.RootTx.Txid
+	nine, five := big.NewInt(9), big.NewInt(5)
+	reader := vkit.WithKey(vkit.Tx("p2", []*protos.TxInput{vkit.In(root, 0, "A", nine)}, []*protos.TxOutput{vkit.Out("B", nine, 0)}), "bk", "k1", nil, 0, nil)
+	writer := vkit.WithKey(vkit.Tx("p3", []*protos.TxInput{vkit.In(root, 1, "B", five)}, []*protos.TxOutput{vkit.Out("C", five, 0)}), "bk", "k1", nil, 0, []byte("p3"))
+	rival := vkit.Tx("px", []*protos.TxInput{vkit.In(root, 0, "A", nine)}, []*protos.TxOutput{vkit.Out("C", nine, 0)})
+	vrt.Assert(s.DoTx(reader) == nil, "reader-admitted")
+	vrt.Assert(s.DoTx(writer) == nil, "writer-admitted")
+	order := vrt.Choice("rival-first", 2)
+	txs := []*pb.Transaction{vkit.Coinbase("cb1", "M", []byte{7})}
+	w := &pb.Transaction{Txid: writer.Txid, Version: writer.Version, TxInputs: writer.TxInputs, TxOutputs: writer.TxOutputs, TxInputsExt: writer.TxInputsExt, TxOutputsExt: writer.TxOutputsExt}
+	if order == 1 {
+		txs = append(txs, rival, w)
+	} else {
+		txs = append(txs, w, rival)
+	}
+	b := vkit.Block(e.Root.Blockid, 1, txs)
+	vrt.Assert(e.L.ConfirmBlock(b, false).Succ, "ledger-confirms-peer-block")
+	err := s.Play(b.Blockid)
+	vrt.Quiesce()
+	vrt.Assert(err == nil, "valid-block-plays")
+	if err != nil {
+		return
+	}
+	rep := e.NewState("replica")
+	vrt.Assert(rep.Play(e.Root.Blockid) == nil && rep.Play(b.Blockid) == nil, "replica-plays-chain-in-order")
+	vkit.Same(vkit.Observe(s), vkit.Observe(rep), func(c bool, label string) { vrt.Assert(c, "node-equals-replica-of-its-chain-"+label) })
 }
 
 func VerifC03Quick()    { verifC03(3) }
@@ -773,6 +820,14 @@ func verifC18With(N int, reorg bool) {
 		blocks = append(blocks, b)
 		live = append(live, readLive())
 	}
+	// the abandoned block's writer comes back as a pending transaction (the ledger still holds its
+	// record from the abandoned block)
+	if reorg && wx != nil && curTx == nil && vrt.Choice("abandoned-writer-resubmitted", 2) == 1 {
+		c := &pb.Transaction{Txid: wx.Txid, Version: wx.Version, TxInputsExt: wx.TxInputsExt, TxOutputsExt: wx.TxOutputsExt}
+		vrt.Assert(s.DoTx(c) == nil, "pending-write-admitted")
+		curTx, curOff = wx.Txid, 0
+		vrt.Cover("abandoned-writer-pending-again", true)
+	}
 	// pending writes on top of the tip
 	np := vrt.Choice("pending", 3)
 	for p := 0; p < np; p++ {
@@ -816,6 +871,8 @@ type scene struct {
 	blockIDs [][]byte
 	txIDs    [][]byte
 	x        *big.Int
+	// the failed operation was PlayForMiner (known-finding class of its own: see known_findings.json)
+	failedMinerPlay bool
 }
 
 func newScene(name string, f *memdbFaults) *scene {
@@ -856,6 +913,7 @@ func (sc *scene) liveEqualsReopened(tag string, afterFailedPlay bool) {
 	l2 := sc.e.Reopen()
 	vkit.Same(so, vkit.Observe(s2), func(c bool, label string) {
 		vrt.Known("failed-block-play-leaves-memory-mutated", afterFailedPlay)
+		vrt.Known("failed-miner-block-play-leaves-memory-mutated", sc.failedMinerPlay)
 		vrt.Assert(c, "reopened-state-"+label)
 	})
 	vkit.SameStrings(lo, vkit.ObserveLedger(l2, sc.blockIDs, sc.txIDs), vrt.Assert, "reopened-ledger-answers-like-running-ledger")
@@ -870,7 +928,7 @@ func verifC05() {
 	before, _ := sc.observe()
 	coreL := func() []string { return vkit.ObserveLedger(sc.e.L, sc.blockIDs[:2], sc.txIDs[:3]) }
 	lbefore := coreL()
-	kind := vrt.Choice("failure", 7)
+	kind := vrt.Choice("failure", 8)
 	var b2 *pb.InternalBlock
 	stateMustBeUnchanged, ledgerMustBeUnchanged := true, true
 	switch kind {
@@ -927,6 +985,17 @@ func verifC05() {
 		if err == nil {
 			stateMustBeUnchanged = false
 		}
+	case 7: // the miner's way of applying its own block: the award applies, the generated transaction after it cites a stale key version
+		ag := vkit.WithKey(vkit.Tx("ag", nil, nil), "bk", "k1", nil, 0, []byte("stale"))
+		ag.Autogen = true
+		b := vkit.Block(sc.b1.Blockid, 9, []*pb.Transaction{vkit.Coinbase("cbx", "M", []byte{7}), ag})
+		vrt.Assert(sc.e.L.ConfirmBlock(b, false).Succ, "ledger-stores-block")
+		sc.blockIDs = append(sc.blockIDs, b.Blockid)
+		sc.txIDs = append(sc.txIDs, []byte("cbx"), []byte("ag"))
+		lbefore = coreL()
+		err := sc.s.PlayForMiner(b.Blockid)
+		vrt.Assert(err != nil, "block-with-stale-generated-transaction-refused")
+		sc.failedMinerPlay = true
 	case 5: // pool submission with a missing input
 		err := sc.s.DoTx(sc.badTx())
 		vrt.Assert(err != nil, "missing-input-refused")
@@ -947,6 +1016,7 @@ func verifC05() {
 	if stateMustBeUnchanged {
 		vkit.Same(before, after, func(c bool, label string) {
 			vrt.Known("failed-block-play-leaves-memory-mutated", failedPlay)
+			vrt.Known("failed-miner-block-play-leaves-memory-mutated", sc.failedMinerPlay)
 			vrt.Assert(c, "failed-operation-leaves-state-"+label)
 		})
 	}
@@ -1021,6 +1091,17 @@ func c06scenario(sc *scene, k int) {
 				sc.s.Play(b2x.Blockid)
 			}
 		}
+	case 8: // as 6 with a second pending transaction that spends the first one's output: both are undone
+		t2x := vkit.Tx("t2x", []*protos.TxInput{vkit.In([]byte("t1"), 0, "B", sc.x)}, []*protos.TxOutput{vkit.Out("D", sc.x, 0)})
+		vkit.WithKey(t2x, "bk", "k1", []byte("t1"), 0, []byte("other"))
+		b2x := vkit.Block(sc.b1.Blockid, 5, []*pb.Transaction{vkit.Coinbase("cb5", "M", []byte{7}), t2x})
+		sc.blockIDs = append(sc.blockIDs, b2x.Blockid)
+		t3 := vkit.Tx("t3", []*protos.TxInput{vkit.In([]byte("t2"), 0, "C", sc.x)}, []*protos.TxOutput{vkit.Out("D", sc.x, 0)})
+		if sc.s.DoTx(sc.goodTx2()) == nil && sc.s.DoTx(t3) == nil {
+			if sc.e.L.ConfirmBlock(b2x, false).Succ {
+				sc.s.Play(b2x.Blockid)
+			}
+		}
 	case 7: // the pool holds a transaction (spending an output of b1) when the state walks to a longer fork that lacks b1
 		c1 := vkit.Block(sc.e.Root.Blockid, 3, []*pb.Transaction{vkit.Coinbase("cb3", "M", []byte{7})})
 		c2 := vkit.Block(c1.Blockid, 4, []*pb.Transaction{vkit.Coinbase("cb4", "M", []byte{7})})
@@ -1045,7 +1126,7 @@ func c06scenario(sc *scene, k int) {
 // verifC06: crash (panic before the c-th storage write, c over every write the
 // scenario issues, across both databases) and restart.
 func verifC06() {
-	k := vrt.Choice("scenario", 8)
+	k := vrt.Choice("scenario", 9)
 	// reference run: counts the writes of the scenario
 	fr := newFaults()
 	ref := newScene("c06ref", fr)
